@@ -88,9 +88,9 @@ CHECKS["C06"] = {
 CHECKS["C04"] = {
     "engine": "E1 lattice explorer",
     "jobs": lambda tier: per_dim("C04.cpp", "C04", tier),
-    "rule": "(a) injected coefficients: unit = (order, 1 or 3 segments, pair of coefficient rows (j,k), one of 9 durations) -> getEnergy vs exact product integration; by bilinearity in the coefficients and polynomial identity in T (degree <= 7 < 9 points) this fixes every weight and power of the closed form; (b) public route: unit = (order, N, duration word, scale) -> getEnergy vs exact integral of the published polynomials for the data basis + generic data, non-negativity, sum over coordinates (vs D one-dimensional splines); non-trivial = the unit involves at least one coefficient row entering the energy",
-    "bounds": {"quick": "3 orders x DIM 1..4; injected: all row pairs x 9 T x {1,3} segments; public: (N 1..4 all 3^N words, N 5,6 all 2^N) x 3 scales x full data basis",
-               "thorough": "3 orders x DIM 1..10; injected as quick; public: (N 1..7 all 3^N words, N 8..10 all 2^N) x 5 scales 2^-6..2^6 x full data basis"},
+    "rule": "(a) injected coefficients: unit = (order, 1 or 3 segments, pair of coefficient rows (j,k), one of 9 + 4 extreme durations 2^-40..2^20) -> getEnergy vs exact product integration; by bilinearity in the coefficients and polynomial identity in T (degree <= 7 < 9 points) this fixes every weight and power of the closed form; (b) public route: unit = (order, N, duration word, scale) -> getEnergy vs exact integral of the published polynomials for the data basis + generic data, non-negativity, sum over coordinates (vs D one-dimensional splines); non-trivial = the unit involves at least one coefficient row entering the energy",
+    "bounds": {"quick": "3 orders x DIM 1..4; injected: all row pairs x 13 T x {1,3} segments; public: (N 1..4 all 3^N words, N 5,6 all 2^N) x 6 scales 2^-30..2^10 x full data basis, fresh + re-fitted object",
+               "thorough": "3 orders x DIM 1..10; injected as quick; public: (N 1..7 all 3^N words, N 8..10 all 2^N) x 8 scales 2^-30..2^10 x full data basis, fresh + re-fitted object"},
     "thresholds": {"relative to sum of |terms| of the exact integral": 1e-12},
     "assumptions": ASSUME_COMMON + ["injected-coefficient route writes the private members coeffs_/time_segments_/time_powers_ through -fno-access-control"],
     "technique": TECH_E1 + "; oracle = exact product integration of the published polynomials in long double; completeness by bilinearity + polynomial identity",
@@ -159,6 +159,17 @@ CHECKS["C10"] = {
     "assumptions": ASSUME_COMMON + ["canonical key reads private members through -fno-access-control"],
     "technique": TECH_E2 + "; oracle = fresh-object differential (R5), bitwise",
     "level_text": "all histories of growing/shrinking updates (both overloads, incl. N=1 and N=2) interleaved with every read-only query up to the stated depth; read-only queries are shown not to change any later observable",
+}
+
+CHECKS["C20"] = {
+    "engine": "E1 lattice explorer",
+    "jobs": lambda tier: [job("C20.cpp", "C20")],
+    "rule": "(1) unit = (start in {0,0.3,-1.5,100}, length in {0,2^-20,0.5,1,2.5,10}, residue class of k): every dt = length/k for k = 1..1024 (quick) / 4096 (thorough), each also x(1+-2^-40) and x(1+-1e-7), plus dt in {1.5 length, 1e-3, 0.01, 0.1, 0.3}: first sample = start exactly, sample i = start + i dt, strictly increasing, none beyond end+1e-6, last within 1e-6 of end, end appended iff short by > 1e-6, final step <= dt; (2) unit = cubic/quintic/septic trajectory (DIM 1 and 3, N in {1,2,3,5}, duration words): batch = pointwise (bitwise), getTrajectoryLength (3 overloads; full range, sub-range, zero length; 4 steps) = left Riemann sum of speed and within dt*int|a| of the Gauss-Legendre arc length; (3) unit = factory call zero()/constant() on 6 breakpoint vectors x coefficient count 1..12: initialised on the breakpoints, all derivatives at all probe times exactly 0 / (v,0,0,...); non-trivial = non-degenerate interval / valid breakpoints",
+    "bounds": {"quick": "384 sequence units (about 123k sequences), 9 duration words per (order, DIM, N), 4 factory instantiations", "thorough": "384 sequence units (about 492k sequences), all 3^N duration words for N in {1,2,3,5}, 4 factory instantiations"},
+    "thresholds": {"sequence contract": "exact / 1e-6 as stated by the property (borderline band 1e-12 excluded)", "length vs Riemann sum": 1e-12, "length vs true arc length": "dt * integral of |a| + 1e-9 relative"},
+    "assumptions": ASSUME_COMMON + ["16-point Gauss-Legendre on 8 sub-intervals per piece as the true arc length"],
+    "technique": TECH_E1 + "; every nearly-dividing step k <= 4096 enumerated (the floating-point floor is at risk exactly there)",
+    "level_text": "the step-count contract is checked for every k up to the bound and both signs of two perturbation sizes, i.e. on exactly the inputs where floor(duration/dt) can go either way",
 }
 
 NOT_APPLICABLE = {}
